@@ -105,6 +105,10 @@ def detect(seed, props):
 
 
 if __name__ == '__main__':
+    import fcntl
+    os.makedirs(S, exist_ok=True)
+    _lk = open(S + '/lock', 'w')
+    fcntl.flock(_lk, fcntl.LOCK_EX)   # one user of the scratch worktree / copy at a time
     if sys.argv[1] == 'confirm':
         confirm(sys.argv[2])
     elif sys.argv[1] == 'detect':
